@@ -487,3 +487,43 @@ func (h *vHist) richState() []int {
 	_ = m4
 	return idx
 }
+
+
+// longState builds (for runs with scaled-down constants) a best chain of n unit-weight headers,
+// runs Clean so that the oldest headers are pruned from memory and written to header files, and
+// adds a two-header side branch near the tip. Symbolic steps then start from a pruned repository.
+func (h *vHist) longState(n int) []int {
+	var idx []int
+	p := 0
+	for k := 0; k < n; k++ {
+		i, err := h.scripted(p, 0)
+		if err != nil {
+			verifAssert(false, "long-state-setup-refused")
+		}
+		idx = append(idx, i)
+		p = i
+	}
+	if err := h.repo.Clean(h.ctx); err != nil {
+		verifAssert(false, "long-state-clean-failed")
+	}
+	s1, err := h.scripted(idx[n-2], 0)
+	if err == nil {
+		idx = append(idx, s1)
+		s2, err := h.scripted(s1, 0)
+		if err == nil {
+			idx = append(idx, s2)
+		}
+	}
+	return idx
+}
+
+// setupState applies the state construction selected by the run's parameters.
+func (h *vHist) setupState() int {
+	switch {
+	case verifParam("rich", 0) == 1:
+		return len(h.richState())
+	case verifParam("long", 0) > 0:
+		return len(h.longState(verifParam("long", 0)))
+	}
+	return 0
+}
